@@ -501,7 +501,7 @@ def R6_stepping(run):
     tgt = strip(cs[0][2][4])
     flag_ok = mentions(tgt, lambda s: s[0] == "call" and s[1].endswith("get_bounded_sqrt_price_target")) and not mentions(tgt, lambda s: s[0] == "bin")
     ba = bnd[0][2]
-    ok = flag_ok and m.is_var(ba[2], "liquidity") and mentions(ba[1], lambda s: s[0] == "call" and s[1].endswith("get_next_sqrt_prices"))
+    ok = flag_ok and m.is_var(ba[2], "liquidity") and mentions(m.expand(ba[1]), lambda s: s[0] == "call" and s[1].endswith("sqrt_price_from_tick_index"))
     run.check("R6", "bounded-target-used", ok, "compute_swap's target is %s; expected .0 of get_bounded_sqrt_price_target(sqrt_price_target, current liquidity)" % sh(tgt, 80), loc=sw.loc(cs[0][1]["l"]),
               detail="target := bounded(sqrt_price_target, liquidity).0")
     flag = None
@@ -516,7 +516,7 @@ def R6_stepping(run):
     run.check("R6", "advance-by-skip-flag", ok, "the skip flag of get_bounded_sqrt_price_target does not select advance_tick_group (false) / advance_tick_group_after_skip()? (true) exclusively", loc=sw.loc(),
               detail="!skipped => advance_tick_group; skipped => advance_tick_group_after_skip?")
     ka = skp[0][2]
-    ok = m.is_var(ka[1], "price") and mentions(ka[2], lambda s: s[0] == "call" and s[1].endswith("get_next_sqrt_prices")) and mentions(ka[3], lambda s: s[0] == "call" and s[1].endswith("get_next_initialized_tick_index"))
+    ok = m.is_var(ka[1], "price") and mentions(m.expand(ka[2]), lambda s: s[0] == "call" and s[1].endswith("sqrt_price_from_tick_index")) and mentions(ka[3], lambda s: s[0] == "call" and s[1].endswith("get_next_initialized_tick_index"))
     run.check("R6", "skip-advance-inputs", ok, "advance_tick_group_after_skip is not given (current price, next tick's price, next tick index)", loc=sw.loc(skp[0][1]["l"]), detail="(price, next_tick_sqrt_price, next_tick_index)")
     g = facts.need_fn(FRM + "advance_tick_group")
     run.touch(g)
